@@ -57,6 +57,22 @@ CHECKS = {
             "astropy.io.fits table read-back; healpy.boundaries for the corners of one pixel (0.2 arcsec tolerance = print precision).",
             "TLA+ model checking with TLC + replay of TLC-generated histories ending in exports + TLC trace validation of files read back",
             "4/C12"),
+    "C07": ("model_checking",
+            "Bane.tla models the worker pool (FIFO tasks, maxtasksperchild=1), Python's Barrier (count/state, arrive, wake-up, reset, abort), "
+            "the shared-memory rows, the parent's map_async().get() completion rule and the finally-unlink. TLC explores every interleaving "
+            "for up to 3 (thorough 4; 5 without faults) stripes and workers, mask on/off, no fault or one fault in each stripe at each of six "
+            "phases, checking Termination/FaultPrompt/CleanReturn (liveness under weak fairness, deadlock check on) and "
+            "NoSpuriousFailure/AllWritten/RaceFree/ShmSafe; the three pre-fix designs are shown to give counterexamples. Spec->code: TLC "
+            "-simulate behaviours of MC_BaneSched (configuration, release schedule, outcome) are forced on real filter_image runs through the "
+            "env-guarded gate hook and outcome + output digest compared. Code->spec: hook event traces of free-running and fault-injected real "
+            "runs are validated by TLC against Bane_Trace (barrier internals as bounded silent steps). Property-level observables of every run "
+            "(not blocked, outcome as the model says, every pixel written, no ibkg_/irms_ segment left, byte-identical maps across schedules "
+            "and worker counts of one layout, <= 0.5 sigma change between stripe counts) are decided by TLC (BaneRun_Trace). Fault enumeration: "
+            "one injected exception per (stripe, phase).",
+            "Linux fork start method; hook events totally ordered by a flock'ed counter; a run still unfinished after 45 s (normal < 2 s) counts "
+            "as blocked; worker death by signal is not injected; interpreter shutdown after the call is outside the property.",
+            "TLA+ model of pool+barrier+shared memory model-checked with TLC (safety, liveness, single-fault enumeration) + forced replay of TLC schedules through gate hooks + TLC trace validation of hook events",
+            "4/C07"),
 }
 
 NOT_YET = "check not built yet in this round of construction (planned, see DESIGN.md section 4)"
